@@ -250,7 +250,9 @@ class Engine:
             b = self.ev(e.value, p)
             if b.kind == 'ref':
                 if e.attr not in self.fields: raise Unsupported(f'field {e.attr} has no declared kind')
-                kind = self.fields[e.attr]; return V(kind, p.heap.load(b.term, e.attr))
+                kind = self.fields[e.attr]
+                if hasattr(self.spec, 'field_kind'): kind = self.spec.field_kind(e, kind) or kind      # same attribute name on two classes (e.g. `outputs`)
+                return V(kind, p.heap.load(b.term, e.attr))
             if b.kind == 'tuple': return b.kw['fields'][e.attr]
             raise Unsupported(f'attribute {e.attr} of {b.kind}@{e.lineno}')
         if isinstance(e, ast.Compare):
